@@ -1,5 +1,6 @@
 import RainModel.Lemmas.LoopWeak
 import RainModel.Lemmas.LoopPersist
+import RainModel.Lemmas.LoopWInvDec
 /-!
 C05 — crash-consistent resume, loop level (M-LOOP).  `persisted` is the bitfield last written to the
 resume database (on stop, on completion, after verification, by the periodic writer `Op.persist`).
@@ -280,6 +281,18 @@ example : (drun (s2, none) (evsF.take 9)).1.persisted = some [true, true] ∧
 example : (drun (s2, none) (evsF ++ [⟨.gate .failOpen false, kn [1], [], []⟩, ⟨.start, kn [1], [], []⟩])).1.status = .downloading ∧
     (drun (s2, none) (evsF ++ [⟨.gate .failOpen false, kn [1], [], []⟩, ⟨.start, kn [1], [], []⟩])).1.bf = some [false, true] := by
   decide
+
+/-- `crash_safe` applies to histories with `gate failOpenAt` (it quantifies over every op but `mutate`): a
+completed download, a stop, `Open` failing at file 1, a start that fails, a start that succeeds. -/
+private def evsG : List Ev := evsA.take 7 ++ [⟨.gate (.failOpenAt 1) true, kn [1], [], []⟩,
+  ⟨.start, kn [1], [], []⟩, ⟨.gate .failOpen false, kn [1], [], []⟩, ⟨.start, kn [1], [], []⟩]
+example (n i : Nat) (h : bitOf (restartTrusts (drun (s2, none) (evsG.take n)).1) i = true) :
+    (drun (s2, none) (evsG.take n)).1.diskOKi i = true :=
+  crash_safe s2 ⟨cfgWF_of_check _ (by decide), badWF_dataSects _ rfl, rfl, rfl, rfl, rfl, rfl, rfl, rfl, rfl, rfl, rfl, rfl,
+    rfl, rfl, rfl, rfl⟩ (noWritten_of_none rfl) evsG (by decide) n i h
+example : (drun (s2, none) (evsG.take 9)).1.persisted = some [true, true] ∧
+    (drun (s2, none) (evsG.take 9)).1.lastErr = true ∧ (drun (s2, none) (evsG.take 9)).1.status = .stopped ∧
+    (drun (s2, none) evsG).1.status = .seeding := by decide
 
 /-- `Op.verifyHeld` has to be excluded like `Op.verify` (it is the same handler): from the freshly added
 torrent, which satisfies `PBehind`, with the open gate held it leaves the verification pending. -/
